@@ -73,11 +73,54 @@ func findPlatformGate(c *Ctx) *gateInfo {
 // cmdIndexOf: v is &db.Commands[idx] (possibly through a local); returns idx.
 func cmdIndexOf(v ssa.Value) ssa.Value {
 	if ia, ok := v.(*ssa.IndexAddr); ok {
-		if _, ok := ssau.IsFieldLoad(ia.X, dbType, "Commands"); ok {
+		if isCommandsList(ia.X) {
 			return ia.Index
 		}
 	}
 	return nil
+}
+
+// isCommandsList: v is db.Commands, or the []Command parameter of an
+// unexported step that every shipped caller hands db.Commands.
+func isCommandsList(v ssa.Value) bool { return isCommandsListD(v, 0) }
+
+func isCommandsListD(v ssa.Value, d int) bool {
+	if _, ok := ssau.IsFieldLoad(v, dbType, "Commands"); ok {
+		return true
+	}
+	if d > 3 {
+		return false
+	}
+	p, ok := v.(*ssa.Parameter)
+	if !ok {
+		p = ssau.ParamOf(v)
+	}
+	if p == nil || curCtx == nil || !strings.HasSuffix(p.Type().String(), "database.Command") {
+		return false
+	}
+	fn := p.Parent()
+	if fn.Object() == nil || fn.Object().Exported() {
+		return false
+	}
+	node := curCtx.P.CallGraph().Nodes[fn]
+	idx := paramIdx(fn, p)
+	if node == nil || idx < 0 {
+		return false
+	}
+	n := 0
+	for _, e := range node.In {
+		if !isShipped(curCtx, e.Caller.Func) {
+			continue
+		}
+		if e.Site == nil || e.Site.Common().StaticCallee() != fn || idx >= len(e.Site.Common().Args) {
+			return false
+		}
+		if !isCommandsListD(e.Site.Common().Args[idx], d+1) {
+			return false
+		}
+		n++
+	}
+	return n > 0
 }
 
 // passEdges computes, in fn, the edges on which (a) the platform gate and (b)
